@@ -25,6 +25,7 @@ type FieldDesc struct {
 	Init     string // model value syntax
 	Cb       int
 	Plain    bool // a field without any go-flags tag (nor anything tagged inside): the library must leave it alone
+	AliasOf  string // (plain slice field) starts out as the very slice the named option field holds: same backing array
 }
 
 type StructDesc struct {
@@ -222,8 +223,27 @@ func (r *Real) makeStruct(sd *StructDesc) reflect.Value {
 	t := r.structType(sd)
 	v := reflect.New(t)
 	r.initStruct(sd, v.Elem())
+	r.aliasPlain(sd, v.Elem())
 	r.roots = append(r.roots, rootStruct{sd, v.Elem()})
 	return v
+}
+
+// aliasPlain: a plain field that "saved" the slice an option field was initialised with shares its
+// backing array; what the library does to the option must not show through it.
+func (r *Real) aliasPlain(sd *StructDesc, v reflect.Value) {
+	for i, f := range sd.Fields {
+		fv := v.Field(i)
+		switch {
+		case f.AliasOf != "":
+			if src, ok := r.fields[f.AliasOf]; ok && src.val.Type() == fv.Type() {
+				fv.Set(src.val)
+			}
+		case f.Kind == "s":
+			r.aliasPlain(f.Sub, fv)
+		case f.Kind == "p" && !fv.IsNil():
+			r.aliasPlain(f.Sub, fv.Elem())
+		}
+	}
 }
 
 func (r *Real) structType(sd *StructDesc) reflect.Type {
